@@ -118,6 +118,10 @@ def embed_vcs(env, want):
                 out.append(VC(C_ONLY_VE.full + ':incompatible_on_role_consistent', [rc], z3.BoolVal(False), C_ONLY_VE.props))
         if on(C_RAISE) and exc_is(I, e, 'IncompatibleSignatures'):
             out.append(VC(C_RAISE.full, ccons + [z3.Not(shared), rhs], z3.BoolVal(False), C_RAISE.props))
+        elif on(C_RAISE):
+            # an exception of another class is no better: on role-consistent inputs (a name two inputs share has the same kind in
+            # both), without a shared parameter and with a call that outer and inner take, there is a result to return
+            out.append(VC(C_RAISE.full + ':' + e.typname, ccons + [rc, z3.Not(shared), rhs], z3.BoolVal(False), C_RAISE.props))
         return out
     res = r.value
     if not (isinstance(res, Inst) and '_parameters' in res._d):
